@@ -377,15 +377,17 @@ def x4(ctx, rep, rule="X4"):
                 rep.add(rule, "reviewed:" + key, True, s.where, RB.ROWS[(short, s.kind, s.what)])
             else:
                 pending.append((s.kind, key, s.where, "; ".join(unproved)))
-    # a pre-existing site whose expression was rewritten shows up under a new description while its row goes unused: accept
-    # as many re-described sites per kind as there are unused rows of that kind; anything beyond that is new
-    for kind in sorted({k for k, _, _, _ in pending}):
-        unused = [r for r in RB.ROWS if r[1] == kind and r not in used_rows]
-        pk = [x for x in pending if x[0] == kind]
+    # a pre-existing site whose expression was rewritten shows up under a new description (possibly of another kind: an
+    # index loop turned into a slice) while its row goes unused: accept as many re-described sites per function as that
+    # function has unused rows; anything beyond that is new
+    fn_of = lambda key: key.split("|", 1)[0]
+    for fn in sorted({fn_of(k) for _, k, _, _ in pending}):
+        unused = [r for r in RB.ROWS if r[0] == fn and r not in used_rows]
+        pk = [x for x in pending if fn_of(x[1]) == fn]
         for i, (k, key, where, why) in enumerate(pk):
             ok = i < len(unused)
             rep.add(rule, ("re-described:" if ok else "unguarded:") + key, ok, where,
-                    ("a reviewed site of this kind is no longer present under its old description (%s); taken to be this one" % (unused[i],)) if ok
+                    ("a reviewed site of this function is no longer present under its old description (%s); taken to be this one" % (unused[i],)) if ok
                     else "neither implied by a guard nor a reviewed row: %s" % why)
     rep.floor(rule, "reader-access-sites", n, 20)
     rep.stats["x4"] = {"sites": n, "reviewed_rows_used": n_rev}
